@@ -107,7 +107,7 @@ def write_replay(prop, v):
     d = os.path.join(ROOT, "out", "replays")
     os.makedirs(d, exist_ok=True)
     body = _jsonable({k: v.get(k) for k in ("oracle", "signature", "message", "harness", "cfg", "labels", "input",
-                                            "check")})
+                                            "check", "max_steps")})
     body["property"] = prop
     h = hashlib.sha1(json.dumps(body, sort_keys=True).encode()).hexdigest()[:12]
     path = os.path.join(d, "%s-%s.json" % (prop, h))
